@@ -199,11 +199,17 @@ type c22Case struct {
 	start, end, step int64
 	now              int64
 	p                c22Profile
+	off2             int64 // offset of the second metric (when p.two)
+	fam              bool  // case of grid D (metric-offset family): result classes are recorded
 }
 
 func (c *c22Case) String() string {
-	return fmt.Sprintf("loc=%s weekStart=%d start=%d end=%d step=%d now=%d mode=%d extend=%v width=%d res=%d offset=%d two=%v",
+	s := fmt.Sprintf("loc=%s weekStart=%d start=%d end=%d step=%d now=%d mode=%d extend=%v width=%d res=%d offset=%d two=%v",
 		c.zone.name, c.ws, c.start, c.end, c.step, c.now, c.p.mode, c.p.extend, c.p.width, c.p.res, c.p.offset, c.p.two)
+	if c.p.two && c.off2 != 0 {
+		s += fmt.Sprintf(" offset2=%d", c.off2)
+	}
+	return s
 }
 
 type c22Viol struct {
@@ -292,7 +298,7 @@ func c22Run(rep *mc.Report, acc *c22Acc, c *c22Case) {
 	args.QueryStat.Add(metric, c.p.offset) // what GetLODs(args) does
 	if c.p.two {
 		metric2 = &format.MetricMetaValue{Resolution: 1}
-		args.QueryStat.Add(metric2, 0)
+		args.QueryStat.Add(metric2, c.off2)
 	}
 	viol := func(sig, msg string, ts *Timescale) {
 		d := map[string]any{"case": c.String(), "utc_offset": utc}
@@ -321,6 +327,9 @@ func c22Run(rep *mc.Report, acc *c22Acc, c *c22Case) {
 		ts, err = GetTimescale(args)
 	}()
 	maxOff := c.p.offset
+	if c.p.two && c.off2 > maxOff {
+		maxOff = c.off2
+	}
 	if maxOff < 0 {
 		maxOff = 0
 	}
@@ -337,6 +346,14 @@ func c22Run(rep *mc.Report, acc *c22Acc, c *c22Case) {
 		case strings.HasPrefix(msg, "offset "):
 			acc.kinds["err-offset-not-multiple"]++
 			acc.outcomes["err-offset"] = struct{}{}
+			if c.fam {
+				// which level step refused which offset: shows that the grid holds offsets that are
+				// multiples of a finer level step and not of the coarsest one
+				var o, st int64
+				fmt.Sscanf(msg, "offset %d is not multiple of step %d", &o, &st)
+				acc.kinds[fmt.Sprintf("D-refused:coarsest-step=%d", st)]++
+				acc.outcomes[fmt.Sprintf("D-refused offset=%d step=%d", o, st)] = struct{}{}
+			}
 		default:
 			// an internal failure instead of a time axis for a well-formed query
 			acc.kinds["err-internal"]++
@@ -511,7 +528,12 @@ func c22Run(rep *mc.Report, acc *c22Acc, c *c22Case) {
 			if off == 0 || r.StepSec != c22Month {
 				// (with a monthly step the meaning of a seconds offset is left open by the statement)
 				if r.FromSec != T[idx]-off {
-					viol("lod-range-does-not-match-points", fmt.Sprintf("range %d starts at %d, first point of the level %d, offset %d", i, r.FromSec, T[idx], off), &ts)
+					sig := "lod-range-does-not-match-points"
+					if off != 0 && r.FromSec != T[idx] {
+						// contiguous, aligned, of the right length - but moved by something else than the metric's offset
+						sig = "lod-ranges-shifted-by-other-than-metric-offset"
+					}
+					viol(sig, fmt.Sprintf("range %d starts at %d, first point of the level %d, offset %d: shifted by %d", i, r.FromSec, T[idx], off, T[idx]-r.FromSec), &ts)
 					return
 				}
 			}
@@ -520,7 +542,20 @@ func c22Run(rep *mc.Report, acc *c22Acc, c *c22Case) {
 	}
 	checkLODs(metric, c.p.offset)
 	if metric2 != nil {
-		checkLODs(metric2, 0)
+		checkLODs(metric2, c.off2)
+	}
+	if c.fam {
+		fmt.Fprintf(&key, " off=%d", c.p.offset)
+		if c.p.two {
+			fmt.Fprintf(&key, ",%d", c.off2)
+		}
+		if maxOff != 0 || c.p.offset != 0 {
+			cls := "one-level"
+			if len(L) > 1 {
+				cls = fmt.Sprintf("levels=%d..%d", L[0].Step, L[len(L)-1].Step)
+			}
+			acc.kinds["D-accepted-with-offset:"+cls]++
+		}
 	}
 	acc.outcomes[key.String()] = struct{}{}
 	if len(L) > 1 || ts.StartX == len(T) || T[ts.StartX] != c.start || L[0].Step == c22Month {
@@ -884,6 +919,115 @@ func TestVerifC22(t *testing.T) {
 	})
 	gridC := total.calls - gridA - gridB
 
+	// ---------------- grid D: the metric offset (time shift) as a dimension, on one- and two-level timescales
+	//
+	// The axis is shared by all metrics of a query; each metric's storage ranges are the axis moved
+	// back by that metric's offset. That only works when the offset is a whole number of steps of
+	// every level, which the code under test decides per query (it may refuse). Here: every offset
+	// of an alphabet built from the table steps themselves (each step, three times each step, the sum
+	// of each two neighbouring steps, the monthly marker, 4 weeks, 2 days - i.e. for every level step
+	// s there are offsets below s, equal to s, multiples of s and non-multiples between them) x the
+	// offset of a second metric (absent or from the same alphabet) x ranges whose ends sit on both
+	// sides of both level switches (so that the unshifted and/or the shifted range straddles a
+	// switch: two-level axes 1h+{15m,5m,1m} and 1m+{15s,5s,1s}) x requested steps x profiles. The
+	// oracle is c22Run unchanged: an accepted query must satisfy every clause (coverage; storage
+	// ranges contiguous, aligned, of the level's length and equal to the level's points minus the
+	// metric's offset), a refused one ("offset is not multiple of step") is not judged.
+	var offAlpha []int64
+	{
+		fixed := []int64{1, 5, 15, 60, 300, 900, 3600, 4 * 3600, c22Day, c22Week}
+		offAlpha = append(offAlpha, 0, c22Month, 4*c22Week, 2*c22Day)
+		for i, st := range fixed {
+			offAlpha = append(offAlpha, st, 3*st)
+			if i > 0 {
+				offAlpha = append(offAlpha, st+fixed[i-1])
+			}
+		}
+		offAlpha = c22Dedupe(offAlpha)
+	}
+	const noSecond = int64(-1)
+	off2Alpha := append([]int64{noSecond}, offAlpha...)
+	if !thorough {
+		off2Alpha = []int64{noSecond, 0, 60, 900, 3600, c22Day}
+	}
+	stepsD := mc.Pick([]int64{0, 60, 900}, []int64{0, 1, 15, 60, 900, 3600, c22Day})
+	profilesD := []c22Profile{
+		{RangeQuery, false, 0, 1, 0, false},
+		{InstantQuery, true, 4000, 5, 0, false},
+		{RangeQuery, false, 0, 60, 0, false},
+	}
+	if thorough {
+		profilesD = append(profilesD, c22Profile{TagsQuery, true, 100, 1, 0, false})
+	}
+	e0, e1 := c22Switches[0], c22Switches[1] // ages of the two level switches
+	startAges := []int64{e0 + 37*c22Day, e0 + 7*c22Day, e0 + c22Day, e0 + 7200, e1 + c22Day, e1 + 3600, e1 + 120, 5 * 3600, 3 * 3600}
+	endAges := []int64{e0 - 3*3600, e0 - 3*c22Day, e1 - 300, e1 - 1800, e1 - 10*3600, 1800, 0}
+	startShifts := mc.Pick([]int64{0, 7}, []int64{0, 7, 1799})
+	type unitD struct {
+		zw
+		now, s, e int64
+	}
+	var unitsD []unitD
+	for _, c := range zws {
+		if !thorough && !(c.ws == 1 && (c.z.name == "UTC" || c.z.name == "Asia/Kolkata" || c.z.name == "Pacific/Chatham")) {
+			continue
+		}
+		day := time.Date(2024, 6, 10, 0, 0, 0, 0, time.UTC).Unix() - c.z.std
+		nowsD := []int64{day + 47*3600}
+		if thorough {
+			nowsD = append(nowsD, day+40000+17)
+		}
+		for _, now := range nowsD {
+			for _, sa := range startAges {
+				for _, ea := range endAges {
+					for _, sh := range startShifts {
+						if s, e := now-sa-sh, now-ea; s < e {
+							unitsD = append(unitsD, unitD{c, now, s, e})
+						}
+					}
+				}
+			}
+		}
+	}
+	rep.Bounds["grid_d_offset_alphabet"] = offAlpha
+	rep.Bounds["grid_d_second_metric_offsets"] = len(off2Alpha)
+	rep.Bounds["grid_d_ranges"] = len(unitsD)
+	rep.Bounds["grid_d_steps"] = stepsD
+	rep.Bounds["grid_d_profiles"] = len(profilesD)
+	var cappedD bool
+	c22Parallel(len(unitsD), func(i int) {
+		if mc.Expired() {
+			mu.Lock()
+			cappedD = true
+			mu.Unlock()
+			return
+		}
+		u := unitsD[i]
+		acc := c22NewAcc()
+		for _, st := range stepsD {
+			for _, p := range profilesD {
+				for _, off := range offAlpha {
+					for _, o2 := range off2Alpha {
+						q := p
+						q.offset = off
+						c := c22Case{zone: u.z, ws: u.ws, start: u.s, end: u.e, step: st, now: u.now, p: q, fam: true}
+						if o2 != noSecond {
+							c.p.two, c.off2 = true, o2
+						}
+						c22Run(rep, acc, &c)
+					}
+				}
+			}
+		}
+		mu.Lock()
+		total.merge(acc)
+		mu.Unlock()
+	})
+	if cappedD && !capped {
+		rep.Cap("wall_budget")
+	}
+	gridD := total.calls - gridA - gridB - gridC
+
 	// ---------------- the rounding primitives themselves
 	var prim int64
 	for _, z := range zones {
@@ -948,6 +1092,7 @@ func TestVerifC22(t *testing.T) {
 	rep.Bounds["grid_a_calls"] = gridA
 	rep.Bounds["grid_b_calls"] = gridB
 	rep.Bounds["grid_c_calls"] = gridC
+	rep.Bounds["grid_d_calls"] = gridD
 	rep.Bounds["primitive_checks"] = prim
 	rep.Bounds["result_kinds"] = total.kinds
 	rep.Bounds["points_checked"] = total.points
@@ -955,6 +1100,6 @@ func TestVerifC22(t *testing.T) {
 	if err := rep.Write(); err != nil {
 		t.Fatal(err)
 	}
-	t.Logf("C22 data_model: calls A=%d B=%d C=%d prim=%d points=%d outcomes=%d kinds=%v violations=%d",
-		gridA, gridB, gridC, prim, total.points, len(total.outcomes), total.kinds, rep.NumViolations())
+	t.Logf("C22 data_model: calls A=%d B=%d C=%d D=%d prim=%d points=%d outcomes=%d kinds=%v violations=%d",
+		gridA, gridB, gridC, gridD, prim, total.points, len(total.outcomes), total.kinds, rep.NumViolations())
 }
